@@ -1,10 +1,10 @@
 (* ManifestRun.v — run commands of the manifest model (C17):
      (manifest_slice <manifest> <request> <entities>)  -> (ok (entity ...)...) | (err <class>)
-     (manifest_adequate <rtrie> (<texpr> ...))          -> (adequate true) | (missing (<root> <path>) ...)
+     (manifest_adequate <rtrie> ((<slotenv> <texpr>) ...)) -> (adequate true) | (missing (<root> <path>) ...)
    manifest: (((<ptype> <action uid> <rtype>) <rtrie>) ...) ; rtrie: ((<root> <trie>) ...)
    root: (lit <uid>) | (var <v>) ; trie: (trie ((<str> <trie>) ...) <rtrie> <bool>) *)
 From Coq Require Import String.
-From Cedar Require Export Manifest TExprRun.
+From Cedar Require Export Manifest ManifestSpec TExprRun.
 Open Scope string_scope.
 
 Definition d_root (s : sexp) : option root :=
@@ -83,12 +83,35 @@ Definition run_manifest (cmd : string) (args : list sexp) : option sexp :=
           | _ => bad_input
           end)
   else if sym_eqb cmd "manifest_adequate" then
+    (* (manifest_adequate <rtrie> ((<slotenv> <texpr>) ...)) *)
     Some (match args with
           | [m; es] =>
-              match d_rtrie m, d_list d_texpr es with
+              match d_rtrie m,
+                    d_list (fun x => match x with
+                                     | SL [sl; e] => match d_slotenv sl, d_texpr e with
+                                                     | Some sl, Some e => Some (sl, e) | _, _ => None end
+                                     | _ => None end) es with
               | Some m, Some es =>
-                  if forallb (adequate m) es then SL [SY "adequate"; SY "true"]
-                  else SL (SY "missing" :: map (fun p => SL [e_root (fst p); e_list SS (snd p)]) (flat_map (missing m) es))
+                  if forallb (fun se => adequate (fst se) m (snd se)) es then SL [SY "adequate"; SY "true"]
+                  else SL (SY "missing" :: map (fun p => SL [e_root (fst p); e_list SS (snd p)])
+                                               (flat_map (fun se => missing (fst se) m (snd se)) es))
+              | _, _ => bad_input
+              end
+          | _ => bad_input
+          end)
+  else if sym_eqb cmd "manifest_frag" then
+    (* (manifest_frag <rtrie> ((<slotenv> <texpr>) ...)) -> (exact|sim|none ...): the visible fragment of the
+       soundness theorem (c17_adequate_sound_partial) decided on each typed policy condition *)
+    Some (match args with
+          | [m; es] =>
+              match d_rtrie m,
+                    d_list (fun x => match x with
+                                     | SL [sl; e] => match d_slotenv sl, d_texpr e with
+                                                     | Some sl, Some e => Some (sl, e) | _, _ => None end
+                                     | _ => None end) es with
+              | Some m, Some es =>
+                  SL (map (fun se => SY (match frag (fst se) m (snd se) with
+                                         | Some KExact => "exact" | Some KSim => "sim" | None => "none" end)) es)
               | _, _ => bad_input
               end
           | _ => bad_input
